@@ -426,7 +426,15 @@ impl<'a> Gen<'a> {
         let special = [0u16, 1, 2, 5, 6, 127, 128, 16383];
         let mut pick_num = |r: &mut Rng| if r.chance(1, 3) { *r.pick(&special) } else { r.below(16384) as u16 };
         let numbers = [(pick_num(r), r.chance(1, 2)), (pick_num(r), r.chance(1, 2))];
-        let mut g = Gen { r, p, cfg, ev: Vec::new(), next_group: 0, uniq: [0; 16], numbers, inflight: [false; 16], pending_value: [false; 16], stats, rr_next: 0, stall_left: 0, snap_state: None, recent: [[0, 127, 64, 1]; 16], recent_pos: [0; 16], run, sweep_k: 0, soaks: 0 };
+        let mut g = Gen { r, p, cfg, ev: Vec::new(), next_group: 0, uniq: [0; 16], numbers, inflight: [false; 16], pending_value: [false; 16], stats, rr_next: 0, stall_left: 0, snap_state: None, recent: {
+            // seeded with bytes a message shares with itself: channel number, low bits of the CC status byte
+            let mut rc = [[0u8, 127, 64, 1]; 16];
+            for (c, e) in rc.iter_mut().enumerate() {
+                e[2] = 0x30 | c as u8;
+                e[3] = c as u8;
+            }
+            rc
+        }, recent_pos: [0; 16], run, sweep_k: 0, soaks: 0 };
         if g.cfg.channels.len() > 1 {
             g.stats.multi_channel_runs += 1;
         }
@@ -522,7 +530,8 @@ impl<'a> Gen<'a> {
         }
     }
     fn note_recent(&mut self, ch: u8, v: u8) {
-        let k = self.recent_pos[ch as usize] as usize % 4;
+        // slots 2 and 3 keep the channel's own bytes (status bits, channel number)
+        let k = self.recent_pos[ch as usize] as usize % 2;
         self.recent[ch as usize][k] = v;
         self.recent_pos[ch as usize] = self.recent_pos[ch as usize].wrapping_add(1);
     }
@@ -548,6 +557,14 @@ impl<'a> Gen<'a> {
             self.sweep_k = self.sweep_k.wrapping_add(1);
             let n = (self.run.wrapping_mul(3).wrapping_add(self.sweep_k)) % 16384;
             return (n as u16, self.r.chance(1, 2));
+        }
+        if self.cfg.value_mode == ValueMode::Echo && self.r.chance(1, 3) {
+            // coincidences between the fields of one message: number bytes that repeat a byte seen
+            // on some channel recently (values, status-byte bits, channel numbers)
+            let c = *self.r.pick(&self.cfg.channels.clone()) as usize;
+            let a = self.recent[c][self.r.below(4) as usize];
+            let b = if self.r.chance(2, 3) { a } else { self.recent[c][self.r.below(4) as usize] };
+            return (((a as u16) << 7) | b as u16, self.r.chance(1, 2));
         }
         if self.cfg.two_numbers {
             let k = self.r.below(2) as usize;
